@@ -63,6 +63,22 @@ func c09Pair(seed uint64, aligned bool) *lib.Pair {
 	pd := append(append(append([]byte(nil), per...), per...), per[:r.Range(1000, 60000)]...)
 	p.Old.PutFile("periodic.bin", pd)
 	p.New.PutFile("periodic.bin", pd)
+	// bsdiff series that read the old file out of order / at unaligned offsets
+	sa, sb := rb(2*lib.BS+int64(r.Range(1, 3000))), rb(2*lib.BS+int64(r.Range(1, 3000)))
+	swOld := append(append([]byte(nil), sa...), sb...)
+	swNew := append(append([]byte(nil), sb...), sa...) // later part first: backward seeks in the optimized patch
+	for k := 0; k < 4; k++ {
+		swNew[r.Intn(len(swNew))] ^= 0x08
+	}
+	p.Old.PutFile("swapped-halves.bin", swOld)
+	p.New.PutFile("swapped-halves.bin", swNew)
+	shOld := rb(lib.BS + int64(r.Range(2000, 30000))) // a short last block of at most 32 KiB
+	shNew := append([]byte(nil), shOld[r.Range(500, 1500):]...)
+	for k := 0; k < 3; k++ {
+		shNew[r.Intn(len(shNew))] ^= 0x08
+	}
+	p.Old.PutFile("shifted.bin", shOld)
+	p.New.PutFile("shifted.bin", shNew)
 	// one old file copied to several new paths (the same old file is read several times in a row)
 	p.Old.PutFile("dup-src.bin", rb(lib.BS+int64(r.Range(1, 3000))))
 	p.New.PutFile("dup-src.bin", p.Old.E["dup-src.bin"].Data)
@@ -77,7 +93,7 @@ func c09Pair(seed uint64, aligned bool) *lib.Pair {
 }
 
 var c09Reuse = map[string]string{"ranged.bin": "block-range|bsdiff", "copy-64k.bin": "whole-file-aligned", "copy-128k.bin": "whole-file-aligned",
-	"copy-odd.bin": "whole-file-unaligned", "copy-small.bin": "whole-file-unaligned", "dup-src.bin": "whole-file-duplicated", "aaa-zerotail.bin": "whole-file-zerotail", "twin1.bin": "whole-file-twin", "twin2.bin": "whole-file-twin", "periodic.bin": "whole-file-periodic", "empty.bin": "empty", "unreferenced.bin": "unreferenced"}
+	"copy-odd.bin": "whole-file-unaligned", "copy-small.bin": "whole-file-unaligned", "dup-src.bin": "whole-file-duplicated", "swapped-halves.bin": "block-range|bsdiff", "shifted.bin": "block-range|bsdiff", "aaa-zerotail.bin": "whole-file-zerotail", "twin1.bin": "whole-file-twin", "twin2.bin": "whole-file-twin", "periodic.bin": "whole-file-periodic", "empty.bin": "empty", "unreferenced.bin": "unreferenced"}
 
 func c09Damages(p *lib.Pair) []lib.Damage {
 	var out []lib.Damage
